@@ -264,6 +264,10 @@ public:
         if (code != control_code_e::auth && code != control_code_e::connack)
             return do_shutdown(asio::error::try_again);
 
+        // CONNACK and AUTH carry no flags: the reserved bits must be zero
+        if (((*_buffer_ptr)[0] & 0b00001111) != 0)
+            return do_shutdown(client::error::malformed_packet);
+
         auto varlen_ptr = _buffer_ptr->cbegin() + 1;
         auto varlen = decoders::type_parse(
             varlen_ptr, _buffer_ptr->cend(), decoders::basic::varint_
@@ -322,6 +326,10 @@ public:
         if (!rv.has_value())
             return do_shutdown(client::error::malformed_packet);
         const auto& [session_present, reason_code, ca_props] = *rv;
+
+        // bits 7-1 of the Connect Acknowledge Flags are reserved
+        if ((session_present & 0b11111110) != 0)
+            return do_shutdown(client::error::malformed_packet);
 
         _ctx.ca_props = ca_props;
         _ctx.state.session_present(session_present);
